@@ -7,7 +7,7 @@
 From Coq Require Import Reals List.
 From Coquelicot Require Import Coquelicot.
 From PS Require Import Base.RBase Base.Dft Gen.Formulas Gen.Ramps Gen.Amps Gen.AmpTable Gen.RenderGlue
-     Proofs.RenderAlgebra Proofs.FluxProofs.
+     Proofs.RenderAlgebra Proofs.FluxProofs Proofs.ConvChain Proofs.SymmetryProofs Proofs.HalfLight.
 Import ListNotations.
 Open Scope R_scope.
 
@@ -55,6 +55,25 @@ Proof. exact amp_sum_band. Qed.
 Theorem C01_hybrid_real_space_scaled : hybrid_real_space_scaled_by_psf_sum = true /\ hybrid_real_space_goes_to_observed_slot = true.
 Proof. split; reflexivity. Qed.
 
+(* the same in the spatial form: the image that conv_fft computes (C03: the scene convolved with the centred stamp) carries
+   total(scene) x sum(psf), for every frame size, every stamp offset and all arrays - no light is lost or gained by the
+   circular wrap-around *)
+Theorem C01_convolved_total_spatial : forall N c0 a p, (0 < N)%nat ->
+  csum (fun r => csum (fun c => conv_centred N c0 a p r c) N) N
+  = Cmult (csum (fun y => csum (fun x => a y x) N) N) (csum (fun i => csum (fun j => p i j) N) N).
+Proof. exact (fun N c0 a p HN => conv_centred_total N HN c0 a p). Qed.
+
+(* the `flux` argument of the generated 1-D profile is its total light: for integer 2n = m (lg = log-gamma at 2n) the light
+   between the radii 0 < a <= R is flux (P(2n, b_n (R/re)^(1/n)) - P(2n, b_n (a/re)^(1/n))) with P the regularised incomplete
+   gamma function, which increases from 0 to 1  (partial: circular profile, integer 2n; the limits a -> 0, R -> infinity and the
+   elliptical plane integral are not formalised) *)
+Theorem C01_profile_light_curve_partial : forall lg flux re m a Rout, 0 < re -> (0 < m)%nat -> exp (lg (2 * (INR m / 2))) = INR (fact (m - 1)) ->
+  0 < a -> a <= Rout ->
+  is_RInt (fun r => 2 * PI * r * sersic1d lg r flux re (INR m / 2)) a Rout
+    (flux * enclosed_fraction m (sersic_bn (INR m / 2) * rpow (Rout / re) (1 / (INR m / 2)))
+     - flux * enclosed_fraction m (sersic_bn (INR m / 2) * rpow (a / re) (1 / (INR m / 2)))).
+Proof. exact (fun lg flux re m a Rout H1 H2 H3 => sersic1d_light_between lg flux re m H1 H2 H3 a Rout). Qed.
+
 Print Assumptions C01_fourier_gauss_dc.
 Print Assumptions C01_pointsource_dc.
 Print Assumptions C01_ramps_dc.
@@ -64,3 +83,5 @@ Print Assumptions C01_dc_product.
 Print Assumptions C01_flux_split.
 Print Assumptions C01_amp_sum_band.
 Print Assumptions C01_hybrid_real_space_scaled.
+Print Assumptions C01_convolved_total_spatial.
+Print Assumptions C01_profile_light_curve_partial.
